@@ -11,7 +11,6 @@ import (
 	"github.com/sarchlab/akita/v5/mem/cache/writethroughcache"
 	"github.com/sarchlab/akita/v5/mem/dram"
 	"github.com/sarchlab/akita/v5/mem/idealmemcontroller"
-	"github.com/sarchlab/akita/v5/mem/memcontrolprotocol"
 	"github.com/sarchlab/akita/v5/mem/rob"
 	"github.com/sarchlab/akita/v5/mem/simplebankedmemory"
 	"github.com/sarchlab/akita/v5/messaging"
@@ -70,9 +69,9 @@ type StackCfg struct {
 	ConnFreqMHz int       `json:"conn_freq_mhz"`
 	Tracing  bool         `json:"tracing"` // vis tracing on start (DB tracer)
 	WithCtrl bool         `json:"with_ctrl"` // add a control driver wired to every Control port
-	// FlushAt > 0 (needs WithCtrl and a write-back level): when the drivers have received FlushAt responses they stop
-	// issuing, the first write-back cache is drained, flushed with an address filter naming FlushLines lines, enabled
-	// again, and the drivers resume. Everything is driven from inside the simulation, so runs are reproducible.
+	// FlushAt > 0 (needs WithCtrl and a write-back level): at cycle FlushAt a scripted control component (fully
+	// serialisable, so it can be checkpointed mid-script) stops the drivers, drains the first write-back cache, flushes
+	// it with an address filter naming FlushLines lines, enables it again, and lets the drivers resume.
 	FlushAt    int `json:"flush_at"`
 	FlushLines int `json:"flush_lines"`
 }
@@ -91,6 +90,8 @@ type Stack struct {
 	Storages []*mem.Storage // one per memory module (may repeat when shared)
 	Conns    []*directconnection.Comp
 	Ctrl     *CtrlDriver
+	Script   *ScriptCtrl
+	ctrlConn *directconnection.Comp
 	Dir      string
 }
 
@@ -351,6 +352,7 @@ func BuildStack(cfg StackCfg, dir string) *Stack {
 	if cfg.WithCtrl {
 		s.Ctrl = BuildCtrlDriver(reg, "CtrlDriver", pb)
 		c := mkConn("CtrlConn")
+		s.ctrlConn = c
 		c.PlugIn(s.Ctrl.GetPortByName("Ctrl"))
 		for _, l := range s.Levels {
 			c.PlugIn(l.GetPortByName("Control"))
@@ -373,45 +375,18 @@ func (s *Stack) attachFlushScript() {
 		d := s.Drivers[i%len(s.Drivers)].Spec()
 		addrs = append(addrs, d.AddrBase+uint64(i)*d.LineSize)
 	}
-	seen := 0
-	steps := []CtrlCmd{
-		{Dst: target, Command: memcontrolprotocol.CmdDrain},
-		{Dst: target, Command: memcontrolprotocol.CmdFlush, Addresses: addrs},
-		{Dst: target, Command: memcontrolprotocol.CmdEnable},
-	}
-	next := 0
-	for _, d := range s.Drivers {
-		d.OnRsp = func(RspEvent) {
-			seen++
-			if seen == cfg.FlushAt {
-				for _, x := range s.Drivers {
-					x.State.Halt = true
-				}
-				s.Ctrl.Send(steps[0])
-				next = 1
-			}
-		}
-	}
-	s.Ctrl.OnAck = func(CtrlAck) {
-		if next < len(steps) {
-			s.Ctrl.Send(steps[next])
-			next++
-			return
-		}
-		if next == len(steps) {
-			next++
-			for _, x := range s.Drivers {
-				x.State.Halt = false
-				x.TickLater()
-			}
-		}
-	}
+	s.Script = BuildScriptCtrl(s.Sim, "ScriptCtrl", ScriptSpec{Freq: 1 * timing.GHz, At: uint64(cfg.FlushAt) * 1000,
+		Target: string(target), Addrs: addrs}, s.Drivers, or(cfg.PortBuf, 4))
+	s.ctrlConn.PlugIn(s.Script.GetPortByName("Ctrl"))
 }
 
 // Start kicks every driver.
 func (s *Stack) Start() {
 	for _, d := range s.Drivers {
 		d.TickLater()
+	}
+	if s.Script != nil {
+		s.Script.TickLater()
 	}
 }
 
